@@ -932,6 +932,34 @@ def f6_copy_metadata(check, prog):
                   'old.name', loc, fail_detail='stores: %s' % {
                       k: (show(e['value'])[:40], [(show(t)[:40], p) for t, p in e['cond']])
                       for k, e in st.items()})
+    # a bare array (what scipy / numpy routines hand back) is given all of old's
+    # coordinates: the ones along its axes and the scalar ones (the z of a
+    # plane, the label of a channel taken out of a stack)
+    ocoords = intern(('attr', old, 'coords'))
+    for c in it.calls:
+        if c['name'] != 'xarray.DataArray' or not c['args'] or c['args'][0] != cpy:
+            continue
+        given = dict(c['kwargs']).get('coords', c['args'][1] if len(c['args']) > 1
+                                      else None)
+        src = given
+        while src is not None and src[0] == 'call' and src[1] in ('dict', 'list') \
+                and len(src[2]) == 1:
+            src = src[2][0]
+        if src is not None and src[0] == 'call' and isinstance(src[1], tuple) and \
+                src[1][2] == 'items' and not src[2]:
+            src = src[1][1]
+        whole = src == ocoords
+        if not whole and src is not None and src[0] == 'comp':
+            # {k: v for k, v in old.coords.items()} without a filter
+            its = [x for x in subterms(src) if x == ocoords]
+            whole = bool(its) and not any(x[0] == 'cmp' for x in subterms(src)) and \
+                not any(x == ('attr', old, 'dims') for x in subterms(src))
+        check.require(whole, 'F6-copy-metadata', 'copy_metadata bare array',
+                      'a bare array is wrapped with every coordinate of old '
+                      '(coords=old.coords)', loc,
+                      fail_detail='coords=%s: scalar coordinates of old (the z of a '
+                      'single plane, the label of a selected channel) are dropped' % (
+                          show(given)[:80] if given else None))
     nocoords = select(res.ret, hyp(True, False))
     withcoords = select(res.ret, hyp(True, True))
     ok = nocoords is not None and withcoords is not None and \
